@@ -257,6 +257,12 @@ def check(ctx: Ctx):
     c03._guarded(ctx, "R05.4", c05.fitting_uint_table)
     c03._guarded(ctx, "R05.1", c05.check_dispatch)
     c03._guarded(ctx, "R05.2", c05.check_library_calls)
+    # results of later evaluations (another group, a flipped copy, the exchanged pair, a second
+    # threshold) are only meaningful if no step writes into the caller's arrays (R15.8)
+    from . import c15 as _c15
+    from . import c03 as _c03
+
+    _c03._guarded(ctx, "R15.8", _c15.check_param_aliasing)
 
 
 _M = "panoptica/instance_matcher.py"
